@@ -27,6 +27,14 @@ func paddingPrograms() []*dsl.Program {
 	}
 	mk("options-zero-left", &dsl.Program{Opts: []dsl.Opt{{Name: "FixedStringPadChar", Value: "'0'", Semi: true}, {Name: "FixedStringPadFromLeft", Value: "true", Semi: true}},
 		Packets: []*dsl.Packet{dsl.Root("Msg", dsl.Fx(4, "A", nil), dsl.Rep(dsl.Fx(3, "B", nil)), dsl.Fx(2, "C", &dsl.Pad{Left: false, Char: "' '"}))}})
+	mk("options-left-only", &dsl.Program{Opts: []dsl.Opt{{Name: "FixedStringPadFromLeft", Value: "true", Semi: true}},
+		Packets: []*dsl.Packet{dsl.Root("Msg", dsl.Fx(4, "A", nil), dsl.Rep(dsl.Fx(3, "B", nil)), dsl.Zc(2, "C"))}})
+	mk("options-left-false-only", &dsl.Program{Opts: []dsl.Opt{{Name: "FixedStringPadFromLeft", Value: "false", Semi: true}},
+		Packets: []*dsl.Packet{dsl.Root("Msg", dsl.Fx(4, "A", nil), dsl.Rep(dsl.Fx(3, "B", nil)))}})
+	for ci, ch := range []string{"'0'", "' '", `'\x00'`} {
+		mk(fmt.Sprintf("options-char-only-%d", ci), &dsl.Program{Opts: []dsl.Opt{{Name: "FixedStringPadChar", Value: ch, Semi: true}},
+			Packets: []*dsl.Packet{dsl.Root("Msg", dsl.Fx(4, "A", nil), dsl.Rep(dsl.Fx(3, "B", nil)), dsl.In("Sub", dsl.Fx(2, "C", nil)))}})
+	}
 	mk("options-nul", &dsl.Program{Opts: []dsl.Opt{{Name: "FixedStringPadChar", Value: `'\x00'`, Semi: true}},
 		Packets: []*dsl.Packet{dsl.Root("Msg", dsl.Fx(4, "A", nil), dsl.Rep(dsl.Fx(3, "B", nil)))}})
 	var fs []*dsl.Field
@@ -61,7 +69,7 @@ func C14(ctx *core.Ctx) int {
 	progs = append(progs, dsl.P6()...)
 	p1 := dsl.P1()
 	for i, p := range p1 {
-		if ctx.Thorough() || i%6 == 0 {
+		if ctx.Thorough() || i%6 == 0 || strings.Contains(p.Name, "match") || strings.Contains(p.Name, "lenof") {
 			progs = append(progs, p)
 		}
 	}
